@@ -487,7 +487,10 @@ pub fn run_case(mode: Mode, input: &[u8], driver: Driver, script: Script) -> (Re
     (r, script)
 }
 
-pub const SYMS: [&[u8]; 7] = [b"a", "é".as_bytes(), b"\x1b", b"[", b"1", b"m", b"\n"];
+/// the last symbol (BS) is a control byte stripping drops: text around it forms two printable runs without any ESC
+pub const SYMS: [&[u8]; 8] = [b"a", "é".as_bytes(), b"\x1b", b"[", b"1", b"m", b"\n", b"\x08"];
+/// how many leading symbols of `SYMS` the longest inputs are made of (see `sweep`)
+pub const BASE_SYMS: usize = 7;
 
 pub fn drivers_for(tokens: &[usize]) -> Vec<Driver> {
     let input: Vec<u8> = tokens.iter().flat_map(|&i| SYMS[i].to_vec()).collect();
@@ -594,7 +597,9 @@ pub fn sweep(mode: Mode, maxlen: usize, k_of: &(dyn Fn(usize) -> usize + Sync)) 
     let max_points = AtomicU64::new(0);
     let viol = std::sync::Mutex::new(Vec::<Finding>::new());
     // (input bytes, token count, drivers)
-    let mut cases: Vec<(Vec<u8>, usize, Vec<Driver>)> = strings_upto(SYMS.len(), maxlen)
+    // inputs of <= maxlen - 1 tokens over all symbols, and of exactly maxlen tokens over the first BASE_SYMS symbols
+    let mut cases: Vec<(Vec<u8>, usize, Vec<Driver>)> = strings_upto(SYMS.len(), maxlen.saturating_sub(1))
+        .chain(strings_of(BASE_SYMS, maxlen))
         .filter(|c| !c.is_empty())
         .map(|toks| {
             let input: Vec<u8> = toks.iter().flat_map(|&i| SYMS[i].to_vec()).collect();
